@@ -68,6 +68,12 @@ def gen_find(run):
     run.dyn_compile(['FindGen', 'FindProps'])
     return ok
 
+def gen_gap(run):
+    ok = run.generate('gap2v(trivia.py: blank-line tests, indent, Layout.from_gap, separators, append_gap_trivia, byte-offset twins)',
+                      ['-W', 'ignore', os.path.join(VERIF, 'tools', 'gap2v.py'), REPO], 'GapGen.v')
+    run.dyn_compile(['GapGen', 'GapGenProps'])
+    return ok
+
 def gen_cli(run):
     return run.generate('cli2v(cli/main.py:main match arms)', ['-W', 'ignore', os.path.join(VERIF, 'tools', 'cli2v.py'), REPO], 'CliGen.v')
 
@@ -172,6 +178,7 @@ def matrix(run, prop):
 
 def layout(run, prop, with_matrix=True):
     run.static()
+    gen_gap(run)
     run.props()
     big = run.tier == 'thorough'
     run.suite('render', 'f0_corr.py', [run.seed, 4800 if big else 800], 'F0')
